@@ -97,6 +97,7 @@ def check(run, prog):
     statelessness_structure(ck, prog, run)
     memo_results_untouched(ck, prog, run)
     single_read_per_request(ck, prog, "R2")
+    delayed_names_rule(ck, prog, "R2")
     reader_factor_agreement(ck, prog, "R4")
     run.extra["decided_by"] = ck.how
 
@@ -423,6 +424,33 @@ def single_read_per_request(ck, prog, rule):
         ck.same(rule, f.where, norm(c)[:100], "every read issued for a request covers exactly the requested (offset, n): the lazy path wraps the same single read "
                 "as the eager path (readers need not be additive over adjacent ranges)", ok, found=text, nontrivial=True)
     ck.run.floor(rule, "_read_array call sites reached from _read_data", len(found), 2)
+
+
+def delayed_names_rule(ck, prog, rule):
+    """dask.delayed(obj.method, name=..., pure=True): `name` REPLACES the token dask would derive from the bound method (and so
+    from the object).  A name that does not contain the object's identity makes the task key a function of the call arguments
+    only: two objects called with equal arguments in one graph share a key and one result silently replaces the other."""
+    n = 0
+    for f in prog.all_functions:
+        if f.kind in ("nested", "lambda"):
+            continue
+        for c in ast.walk(f.node):
+            if not (isinstance(c, ast.Call) and norm(c.func).split(".")[-1] == "delayed" and c.args):
+                continue
+            target = c.args[0]
+            if not (isinstance(target, ast.Attribute) and isinstance(target.value, ast.Name)):
+                continue            # a plain function: its arguments are tokenised, a fixed name is harmless
+            n += 1
+            nm = next((k.value for k in c.keywords if k.arg in ("name", "dask_key_name")), None)
+            obj = target.value.id
+            if nm is None:
+                ck.same(rule, f.where, norm(c)[:100], "the task key of a delayed bound method derives from the object (no name= override)", True)
+                continue
+            has_identity = any(isinstance(x, ast.Call) and norm(x.func).split(".")[-1] in ("id", "tokenize") and any(
+                isinstance(a, ast.Name) and a.id == obj for a in ast.walk(x)) for x in ast.walk(nm))
+            ck.same(rule, f.where, norm(c)[:110], "an explicit name= for a delayed bound method contains the object's identity (id(obj) / tokenize(obj)); otherwise "
+                    "two objects called with the same arguments share one task key", has_identity, found=f"name={norm(nm)[:80]}", nontrivial=True)
+    ck.run.floor(rule, "dask.delayed(<bound method>) sites", n, 1)
 
 
 def memo_results_untouched(ck, prog, run):
